@@ -12,6 +12,7 @@ var commands = map[string]func([]string){}
 func register(name string, f func([]string)) { commands[name] = f }
 
 func main() {
+	linkRegistries()
 	if len(os.Args) < 2 || commands[os.Args[1]] == nil {
 		var n []string
 		for k := range commands {
